@@ -87,6 +87,10 @@ func CorpusOps() []Op {
 		`{t{times optStrs} ts{times}}`,
 		// type conditions naming a UNION: on its members, on the union itself, through a named fragment
 		`{t{... on U{__typename} id} u{... on U{__typename ... on T{name}} ...FU} node{... on U{__typename}}} fragment FU on U{... on S{title}}`,
+		// one response key repeated under several type conditions: the merged sub-selections of two
+		// concrete types start and end with the same nodes, have the same length and differ in the middle
+		`{peers{peer{id} ... on T{peer{... on T{name}}} ... on S{peer{... on T{req}}} peer{__typename}}}`,
+		`{ts{kid{id} ... on Named{kid{name}} kid{plain}} t{kid{id} ... on Node{kid{req}} kid{plain}}}`,
 	}
 	var out []Op
 	for _, q := range qs {
@@ -124,6 +128,9 @@ func FaultCases() []Case {
 	d := func(q string, kv ...string) Case {
 		return Case{Op: Op{Text: q}, Plan: planOf(kv...), DefaultRecover: true}
 	}
+	o := func(q string, kv ...string) Case {
+		return Case{Op: Op{Text: q}, Plan: planOf(kv...), OpRecover: true}
+	}
 	return []Case{
 		c(`{peers{id} str}`, "peers", "len1", "peers[0]", "rogue"),
 		c(`{t{id} peers{id peer{id}}}`, "peers", "len1", "peers[0]", "rogue"),
@@ -132,6 +139,10 @@ func FaultCases() []Case {
 		d(`{ts{name}}`, "ts[0].name", "panic", "ts[1].name", "panic"),
 		d(`{t{kid{name}} node{id}}`, "t.kid.name", "panic"),
 		d(`{t{name}}`, "t.name", "panic"),
+		// the recover hook installed per operation (operation context mutator), server-wide decoy
+		o(`{t{name req} str}`, "t.name", "panic"),
+		o(`{ts{name}}`, "ts[1].name", "panic"),
+		o(`{t{guarded kid{name}}}`, "@t.guarded", "panic", "t.kid.name", "panic"),
 	}
 }
 
